@@ -21,8 +21,23 @@ fn raw_cif(p: &PDB) -> Vec<u8> {
 /// diagnostic triggers for PDB text (each produces a known diagnostic class)
 fn mutate_pdb(rng: &mut Rng, text: &str) -> (String, &'static str) {
     let mut lines: Vec<String> = text.lines().map(str::to_string).collect();
-    let k = rng.below(12);
+    let k = rng.below(15);
     let label = match k {
+        12 => {
+            // a remark that is too long and has a character no text may hold: what the levels make of the two together
+            lines.insert(0, format!("REMARK   2 {}\t{}", "X".repeat(40), "Y".repeat(40)));
+            "long-remark-with-tab"
+        }
+        13 => {
+            lines.insert(0, "REMARK   2 A\tB".to_string());
+            "remark-with-tab"
+        }
+        14 => {
+            // two diagnostics of different families whose levels differ: a long remark and a wrong remark number
+            lines.insert(0, format!("REMARK   2 {}", "X".repeat(75)));
+            lines.insert(1, "REMARK 998 A".to_string());
+            "long-remark+bad-number"
+        }
         9 => {
             // MASTER record with each checksum independently right or wrong (several diagnostics of one family, two levels)
             let n_atoms = lines.iter().filter(|l| l.starts_with("ATOM") || l.starts_with("HETATM")).count();
